@@ -190,7 +190,7 @@ func (x *Exec) callHavoc(fr *frame, c *ssa.CallCommon, hs *havocSet) {
 	callee := c.StaticCallee()
 	if callee == nil && !c.IsInvoke() {
 		if n, ok := c.Value.Type().(*types.Named); ok {
-			if ct := x.E.Contracts["functype "+n.Obj().Name()]; ct != nil && ct.Modifies != nil && len(ct.Modifies.List) == 0 {
+			if ct := x.E.contractByKey("functype " + n.Obj().Name()); ct != nil && ct.Modifies != nil && len(ct.Modifies.List) == 0 {
 				return
 			}
 		}
@@ -201,7 +201,7 @@ func (x *Exec) callHavoc(fr *frame, c *ssa.CallCommon, hs *havocSet) {
 	}
 	if callee == nil {
 		if c.IsInvoke() {
-			if ct := x.E.Contracts[x.E.invokeKey(c)]; ct != nil && ct.Modifies != nil && len(ct.Modifies.List) == 0 {
+			if ct := x.E.contractByKey(x.E.invokeKey(c)); ct != nil && ct.Modifies != nil && len(ct.Modifies.List) == 0 {
 				return
 			}
 		}
